@@ -11,6 +11,7 @@ import NomtModel.Driver.TriePosMode
 import NomtModel.Driver.ShardsMode
 import NomtModel.Driver.DeltaMode
 import NomtModel.Driver.OvfMode
+import NomtModel.Driver.LeafUpdMode
 /-!
 `nomt_model`: the executable Lean model behind a line protocol.
 First argument selects the sub-protocol; stdin → stdout, one output line per input line.
@@ -41,4 +42,5 @@ def main (args : List String) : IO UInt32 := do
   | ["shards"] => loop stdin stdout shardsStep {}; return 0
   | ["delta"] => loop stdin stdout deltaStep {}; return 0
   | ["overflow"] => loop stdin stdout OvfD.ovfStep {}; return 0
+  | ["leafupd"] => loop stdin stdout leafupdStep none; return 0
   | _ => IO.eprintln "usage: nomt_model <core|...>"; return 2
